@@ -18,7 +18,7 @@ const OPS: &[&str] = &["array_int", "array_float", "array_bool", "array_obj",
                        "vec_fill", "vec_fill_float", "vec_fill_bool", "vec_fill_obj",
                        "manual_alloc", "manual_reuse", "bytes_alloc",
                        "string_repeat", "string_repeat_mb", "pad_left", "pad_right", "pad_left_mb", "pad_right_mb",
-                       "replace_sq", "join_sq", "str_literal", "churn", "churn_mix", "churn_over", "bytes_many", "bytes_clone", "bytes_resize", "bytes_cycle", "bytes_from_string", "fs_read_bytes",
+                       "replace_sq", "join_sq", "str_literal", "churn", "churn_mix", "churn_over", "bytes_many", "bytes_clone", "bytes_resize", "bytes_cycle", "bytes_from_string", "fs_read_bytes", "net_udp_recv_from", "net_udp_recv", "net_recv_bytes", "net_recv",
                        "concat_double", "vec_new_lit", "closures"];
 
 /// (prelude, operation input).  The operation input is the same text for every size: the size is the
@@ -28,6 +28,18 @@ fn program(op: &str, n: i128, limit: u64) -> Option<(String, String)> {
     // every global is used in the prelude itself: at -O2 an unused top-level `let` is deleted and later inputs would not compile
     // pc: a three-byte pad character, se: a six-byte / two-character repeat unit
     let pre = format!("let mut n = {}\nlet mut sx = \"0123456789abcdef\"\nlet mut pc = \"€\"\nlet mut se = \"€€\"\nlet mut rsv = {}\nlet mut used = 0\nused = sx.len() + pc.len() + se.len() + rsv\nused = n\nused\n", n, fill_reserve(op, limit));
+    if op.starts_with("net_") {
+        // std.net receive natives against a loopback peer that lives in this process (see child): the peer answers with 13 bytes;
+        // the receive buffer is built for the REQUESTED maximum n (net.recv: a 64 KiB chunk buffer)
+        let port = NET_PORT.load(Ordering::SeqCst);
+        let body = match op {
+            "net_udp_recv_from" => format!("needs std.net as net\nlet s = net.udp_bind(\"127.0.0.1\", 0)\nnet.udp_send_to(s, \"hi\", \"127.0.0.1:{}\")\nlet d = net.udp_recv_from(s, n, 0)\nused = n\nused\n", port),
+            "net_udp_recv" => format!("needs std.net as net\nlet s = net.udp_bind(\"127.0.0.1\", 0)\nnet.udp_connect(s, \"127.0.0.1\", {})\nnet.udp_send(s, \"hi\")\nlet d = net.udp_recv(s, n)\nused = n\nused\n", port),
+            "net_recv_bytes" => format!("needs std.net as net\nlet s = net.connect(\"127.0.0.1\", {})\nlet d = net.recv_bytes(s, n)\nused = n\nused\n", port),
+            _ => format!("needs std.net as net\nlet s = net.connect(\"127.0.0.1\", {})\nlet d = net.recv(s)\nused = n\nused\n", port),
+        };
+        return Some((pre, body));
+    }
     if op == "str_literal" {
         // a string constant of n bytes in the source: charged when the compile heap is merged into the VM's heap
         let lit: String = std::iter::repeat('x').take(n.max(0) as usize).collect();
@@ -139,6 +151,21 @@ fn vm_peak_kib() -> u64 {
 }
 
 #[cfg(vbxq_aelys_lang_verif)]
+static NET_PORT: std::sync::atomic::AtomicU64 = std::sync::atomic::AtomicU64::new(10000);
+/// loopback peer for the std.net operations: answers every datagram / connection with 13 bytes
+fn net_peer(udp: bool) -> u16 {
+    if udp {
+        let a = std::net::UdpSocket::bind("127.0.0.1:0").expect("udp bind on loopback");
+        let port = a.local_addr().unwrap().port();
+        std::thread::spawn(move || { let mut b = [0u8; 64]; while let Ok((_, src)) = a.recv_from(&mut b) { let _ = a.send_to(b"thirteen byte", src); } });
+        port
+    } else {
+        let l = std::net::TcpListener::bind("127.0.0.1:0").expect("tcp listen on loopback");
+        let port = l.local_addr().unwrap().port();
+        std::thread::spawn(move || { let mut keep = vec![]; while let Ok((mut st, _)) = l.accept() { use std::io::Write; let _ = st.write_all(b"thirteen byte"); let _ = st.flush(); keep.push(st); } });
+        port
+    }
+}
 fn child() {
     use hxlib::runner::*;
     let limit = arg_u64("--limit", 1 << 20);
@@ -149,8 +176,12 @@ fn child() {
     let lim = RLimit { cur: cap << 20, max: cap << 20 };
     unsafe { setrlimit(RLIMIT_AS, &lim); }
     quiet_panics();
+    if op.starts_with("net_") { NET_PORT.store(net_peer(op.starts_with("net_udp")) as u64, Ordering::SeqCst); }
     let (pre, body) = match program(&op, size, limit) { Some(x) => x, None => { println!("RESULT 9 0 0 0 0 unknown-op"); return; } };
     let mut cfg = match aelys_runtime::VmConfig::new(limit) { Ok(c) => c, Err(e) => { println!("RESULT 9 0 0 0 0 config:{}", e); return; } };
+    if op.starts_with("net_") {
+        cfg.capabilities.allow_net = true;
+    }
     if op.starts_with("fs_") {
         cfg.capabilities.allow_fs = true;
         // children run in parallel: create the file atomically, and only when it is not there yet
@@ -282,6 +313,11 @@ fn sizes_for(op: &str, limit: u64, rng: &mut Rng, random: bool) -> Vec<i128> {
     if op == "bytes_many" || op == "bytes_cycle" {
         let q = l / 65536;
         return if random { vec![rng.range_i64(0, (2 * q + 8) as i64) as i128] } else { vec![-1, 0, 1, 2, q / 2, q - 2, q - 1, q, q + 1, 2 * q, 200] };
+    }
+    if op.starts_with("net_") {
+        // up to the module's own cap of 16 MiB
+        return if random { vec![if rng.chance(1, 2) { rng.range_i64(13, 16_777_216) } else { rng.range_i64(13, (l + 200_000) as i64) } as i128] }
+               else { vec![13, 1000, 70_000, l / 2, l - 200_000, l - 10_000, l, l + 1, 2 * l, 16_000_000, 16_777_216] };
     }
     if op == "fs_read_bytes" {
         // up to the module's own cap of 16 MiB; above the limit the request must be refused before the buffer exists
@@ -476,7 +512,7 @@ fn coq_op(op: &str) -> String {
         "vec_fill" | "vec_fill_float" | "vec_fill_obj" => "OVecFill 8".into(), "vec_fill_bool" => "OVecFill 1".into(),
         "manual_alloc" => "OManual".into(), "manual_reuse" => "OManualReuse".into(),
         "bytes_alloc" => "OBytes".into(), "bytes_many" => "OBytesMany 65536".into(), "bytes_clone" => "OBytesClone".into(), "bytes_resize" => "OBytesResize 1000".into(),
-        "bytes_cycle" => "OBytesCycle 65536".into(), "fs_read_bytes" => "OFsRead 13".into(), "string_repeat" => "ORepeat 16".into(), "string_repeat_mb" => "ORepeat 6".into(),
+        "bytes_cycle" => "OBytesCycle 65536".into(), "fs_read_bytes" => "OFsRead 13".into(), "net_udp_recv_from" | "net_udp_recv" | "net_recv_bytes" => "ONetRecv 13".into(), "net_recv" => "ONetRecvAll 13".into(), "string_repeat" => "ORepeat 16".into(), "string_repeat_mb" => "ORepeat 6".into(),
         "pad_left" | "pad_right" => "OPad 16 16 1".into(), "pad_left_mb" | "pad_right_mb" => "OPad 16 16 3".into(),
         "str_literal" => "OLiteral".into(), "churn" => "OChurn".into(), "churn_mix" => "OChurnMix".into(), "churn_over" => "OChurnOver".into(),
         "replace_sq" => "OProductSq 1".into(), "join_sq" => "OProductSq 2".into(),
